@@ -74,13 +74,17 @@ def available_ops(m, variety=0):
         return specs[(i + variety) % len(specs)]
     ops = []
     for t, (n, holder, idx, owner, in_arg) in enumerate(targets(m)):
-        ops.append(['delete', t])
-        ops.append(['replace_with', t, spec(t)])
-        ops.append(['replace', t, spec(t + 1)])
+        # the body of a command that is no longer called \item (renamed) is
+        # not editable by design (TexSoup raises its documented TypeError)
+        editable = in_arg or owner.supports_contents()
+        if editable:
+            ops.append(['delete', t])
+            ops.append(['replace_with', t, spec(t)])
+            ops.append(['replace', t, spec(t + 1)])
         if not in_arg and owner.supports_contents():
             ops.append(['remove', t])
-        if n.kind in ('cmd', 'env') and n.name != 'item':
-            ops.append(['rename', t, 'rn'])
+        if n.kind in ('cmd', 'env'):
+            ops.append(['rename', t, 'rn' if n.name != 'rn' else 'item'])
         if string_settable(n):
             ops.append(['set_string', t, 'STR'])
         if n.kind in ('cmd', 'env'):
@@ -90,6 +94,8 @@ def available_ops(m, variety=0):
                 ops.append(['args', t, 'pop', -1])
                 ops.append(['args', t, 'reverse'])
                 ops.append(['args', t, 'slice', 0, 1])
+                ops.append(['args', t, 'slice', 0, 0])
+                ops.append(['args', t, 'slice', 1, len(n.args)])
                 if n.args[0].kind == 'arg':
                     ops.append(['args', t, 'arg_string', 0, 'AS'])
     for c, C in enumerate(containers(m)):
